@@ -359,6 +359,8 @@ def mk_rop(letter, rng, nt, bo, atom):
         return dict(op='iterappend', items=[dict(kind='fillto', delta=0), item_spec(rng, nt, bo, atom, 0, 'nd')])
     if letter == 'afill1':   # ... one more than that: the end index does not fit, the subarray is refused
         return dict(op='iterappend', items=[dict(kind='fillto', delta=1), item_spec(rng, nt, bo, atom, 1, 'nd')])
+    if letter == 'afill1a':  # ... the same through append()
+        return dict(op='append', items=[dict(kind='fillto', delta=1)])
     if letter == 'aatom':    # ONE atom without the leading axis: its rank is one too low, it is not a subarray
         if not t:
             return dict(op='append', items=[dict(kind='scalar', value=3)])
@@ -421,7 +423,7 @@ def mk_rop(letter, rng, nt, bo, atom):
     raise ValueError(letter)
 
 
-RALPHABET = ['a0', 'a1', 'a3', 'al', 'aod', 'asw', 'astr', 'aovf', 'aatom', 'afill0', 'afill1', 'amask', 'abig', 'abad', 'it0', 'it2', 'itbad', 't-1', 't0', 't1', 't2',
+RALPHABET = ['a0', 'a1', 'a3', 'al', 'aod', 'asw', 'astr', 'aovf', 'aatom', 'afill0', 'afill1', 'afill1a', 'amask', 'abig', 'abad', 'it0', 'it2', 'itbad', 't-1', 't0', 't1', 't2',
              'tbig', 't-big', 'tni', 'ro', 'mr', 'mrw', 'ms', 'mc']
 RCOMPACT = ['a0', 'a1', 'a3', 'aod', 'asw', 'astr', 'aovf', 'aatom', 'it2', 't-1', 't-big', 't0', 't1', 'ro', 'mr', 'abad']
 
@@ -457,7 +459,7 @@ def index_limit_cases(rng):
     """appends that end exactly at / one beyond the largest value of a narrow index type"""
     out = []
     for k, (ity, atom) in enumerate([('int8', ()), ('uint8', (2,)), ('int8', (2, 1)), ('uint8', ())]):
-        for j, letters in enumerate((['afill0', 'a0', 'a1', 'ro'], ['afill1', 'ro'], ['a3', 'afill1', 'afill0', 't-1', 'afill0'])):
+        for j, letters in enumerate((['afill0', 'a0', 'a1', 'ro'], ['afill1', 'ro'], ['a3', 'afill1', 'afill0', 't-1', 'afill0'], ['a1', 'afill1a', 'ro', 'a1'])):
             nt = NUMTYPES[(5 * k + j) % 13]
             out.append(rhistory_case(rng, nt, ('little', 'big')[(k + j) % 2], atom, ity, [2, 0, 1], letters))
     return out
